@@ -525,3 +525,188 @@ Section JsonC07.
     - split; discriminate.
   Qed.
 End JsonC07.
+
+(* ------------------------------------------------------------------------------------------------------------
+   file based (FileBasedPacketSerializer through _wrap_generic_incremental_deserialize)
+   ------------------------------------------------------------------------------------------------------------ *)
+Section FbC07.
+  Context {P : Type}.
+  Variables (limit : nat) (load : bytes -> lres P) (expected : Z -> bool).
+  Hypothesis load_eof_pos : forall content pos, load content = LEof pos -> pos <= length content.
+  Hypothesis load_done_pos : forall content p pos, load content = LDone p pos -> 1 <= pos.
+  Hypothesis load_raise_pos : forall content k pos, load content = LRaise k pos -> 1 <= pos.
+
+  Let F := wrap_generic (fb_framer limit load expected).
+
+  Definition fb_content_le (s : fb_state) : Prop :=
+    match s with Some (content, _) => length content <= limit | None => True end.
+
+  Lemma fb_round_need content s' : fb_round limit load expected content = Need s' ->
+    exists pos, s' = Some (content, pos) /\ load content = LEof pos /\ length content <= limit.
+  Proof.
+    unfold fb_round. destruct (Nat.ltb limit (length content)) eqn:El; [discriminate|]. apply Nat.ltb_ge in El.
+    destruct (load content) as [pos|p pos|k pos] eqn:E; try discriminate.
+    - intros H; inversion H; subst. eauto.
+    - destruct (expected k); discriminate.
+  Qed.
+
+  Lemma fb_need_content s ch s' : ffeed F s ch = Need s' -> fb_content_le s'.
+  Proof.
+    cbn. destruct (fb_feed limit load expected s ch) as [s0| | |] eqn:E; try discriminate.
+    intros H; inversion H; subst. unfold fb_feed in E.
+    destruct s as [[content pos]|]; apply fb_round_need in E as (q & -> & _ & Hl); exact Hl.
+  Qed.
+
+  Lemma fb_wrapped_progressive : progressive F fb_held.
+  Proof. apply wrap_progressive. apply fb_progressive; assumption. Qed.
+
+  (* (a) *)
+  Theorem fb_held_bound_l (chunks : list bytes) fuel :
+    Forall (fun ch => ch <> []) chunks -> length (concat chunks) <= fuel ->
+    exists c' evs,
+      cdeliver F fuel (cinit _) chunks = (c', evs) /\ cbuf c' = [] /\
+      match ccons c' with Some (Some (content, _)) => length content <= limit | _ => True end.
+  Proof.
+    intros Hne Hf.
+    destruct (held_bound_generic F fb_held fb_wrapped_progressive fb_content_le fb_need_content chunks fuel Hne Hf)
+      as (c' & evs & Hd & Hb & Hq).
+    exists c', evs. split; [exact Hd|]. split; [exact Hb|].
+    destruct (ccons c') as [[[content pos]|]|]; cbn in *; auto.
+  Qed.
+
+  (* the BytesIO of a suspended generator when every load so far read to the end *)
+  Inductive fbrep : fb_state -> bytes -> Prop :=
+  | fbrep_init : fbrep None []
+  | fbrep_wait w : fbrep (Some (w, length w)) w.
+
+  Lemma bio_write_end (w ch : bytes) : bio_write w (length w) ch = w ++ ch.
+  Proof.
+    unfold bio_write. rewrite firstn_all, Nat.sub_diag. cbn [repeat app].
+    rewrite skipn_all2 by lia. rewrite app_nil_r. reflexivity.
+  Qed.
+
+  Lemma fb_feed_rep s w ch : fbrep s w -> fb_feed limit load expected s ch = fb_round limit load expected (w ++ ch).
+  Proof. intros [|w']; cbn [fb_feed]; [reflexivity|]. rewrite bio_write_end. reflexivity. Qed.
+
+  (* (b) a record that never completes (the loader reports EOF on every prefix, having read it all): the limit
+     error on the read that takes the accumulated data beyond [limit] bytes *)
+  Lemma fb_first_overrun chunks : forall s w,
+    fbrep s w -> length w <= limit -> limit < length (w ++ concat chunks) ->
+    (forall k, k <= length (w ++ concat chunks) -> load (firstn k (w ++ concat chunks)) = LEof k) ->
+    first_event F s chunks = Some (Fail ELimit []).
+  Proof.
+    induction chunks as [|ch cs IH]; intros s w Hr Hw Hl He.
+    - cbn [concat] in Hl. rewrite app_nil_r in Hl. lia.
+    - cbn [concat] in Hl, He. rewrite app_assoc in Hl, He.
+      unfold F. cbn [first_event ffeed wrap_generic fb_framer]. rewrite (fb_feed_rep _ _ ch Hr). unfold fb_round.
+      destruct (Nat.ltb limit (length (w ++ ch))) eqn:El.
+      + rewrite overrun_nil_all. reflexivity.
+      + apply Nat.ltb_ge in El.
+        pose proof (He (length (w ++ ch)) ltac:(rewrite (app_length (w ++ ch)); lia)) as Hk.
+        rewrite firstn_app_le, firstn_all in Hk by lia. rewrite Hk.
+        apply (IH _ (w ++ ch) (fbrep_wait _) El Hl He).
+  Qed.
+
+  Theorem fb_overrun_raised_l (chunks : list bytes) fuel :
+    Forall (fun ch => ch <> []) chunks ->
+    (forall k, k <= length (concat chunks) -> load (firstn k (concat chunks)) = LEof k) ->
+    limit < length (concat chunks) ->
+    exists c' evs, cdeliver F fuel (cinit _) chunks = (c', RErr ELimit :: evs).
+  Proof.
+    intros Hne He Hl.
+    pose proof (fb_first_overrun chunks None [] fbrep_init ltac:(cbn; lia) Hl He) as Hf.
+    destruct (cdeliver_first_event F fuel chunks (cinit _) None _ (suspended_init _) Hne Hf) as (c' & evs & Hd & _).
+    exists c', evs. exact Hd.
+  Qed.
+
+  (* (c) whatever the loader does, no limit error while the data received since the previous event fits in [limit]:
+     a record is never rejected for its size when record + whatever arrived with it in the same reads <= limit *)
+  Lemma fb_first_safe chunks : forall s r,
+    fb_held s + length (concat chunks) <= limit -> first_event F s chunks = Some r ->
+    match r with Fail ELimit _ => False | _ => True end.
+  Proof.
+    induction chunks as [|ch cs IH]; intros s r Hl Hf; [discriminate|].
+    cbn [concat] in Hl. rewrite app_length in Hl.
+    unfold F in Hf. cbn [first_event ffeed wrap_generic fb_framer] in Hf.
+    set (content := match s with Some (c0, pos) => bio_write c0 pos ch | None => ch end).
+    assert (Hc : fb_feed limit load expected s ch = fb_round limit load expected content)
+      by (unfold content; destruct s as [[c0 pos]|]; reflexivity).
+    assert (Hlen : length content <= fb_held s + length ch).
+    { unfold content. destruct s as [[c0 pos]|]; cbn [fb_held]; [|lia].
+      pose proof (bio_write_len c0 pos ch) as [H1 _]. exact H1. }
+    rewrite Hc in Hf. unfold fb_round in Hf.
+    destruct (Nat.ltb limit (length content)) eqn:El; [apply Nat.ltb_lt in El; lia|].
+    destruct (load content) as [pos|p pos|k pos] eqn:E.
+    - apply (IH (Some (content, pos)) r); [|exact Hf]. cbn [fb_held]. specialize (load_eof_pos _ _ E). lia.
+    - inversion Hf; subst; exact I.
+    - destruct (expected k); inversion Hf; subst; exact I.
+  Qed.
+
+  Theorem fb_safe_never_rejected_l (chunks : list bytes) fuel r :
+    Forall (fun ch => ch <> []) chunks -> length (concat chunks) <= limit ->
+    first_event F None chunks = Some r ->
+    exists c' evs, cdeliver F fuel (cinit _) chunks = (c', nres_of F r :: evs) /\ nres_of F r <> RErr ELimit.
+  Proof.
+    intros Hne Hl Hf.
+    pose proof (fb_first_safe chunks None r ltac:(cbn; lia) Hf) as Hk.
+    destruct (cdeliver_first_event F fuel chunks (cinit _) None r (suspended_init _) Hne Hf) as (c' & evs & Hd & _).
+    exists c', evs. split; [exact Hd|]. destruct r as [s|p rest|e rest|]; cbn; try discriminate.
+    destruct e; try discriminate. contradiction.
+  Qed.
+End FbC07.
+
+(* ------------------------------------------------------------------------------------------------------------
+   the buffer-filling twins: _wrap_generic_buffered_incremental_deserialize sends the inner generator buffer[:nbytes],
+   so a sequence of receive rounds (buffer contents, nbytes) is the copying generator over the slices
+   ------------------------------------------------------------------------------------------------------------ *)
+Section BWrap.
+  Context {P : Type}.
+  Variable F : framer P.
+  Variable alloc : nat -> nat.
+
+  Fixpoint first_bevent (s : fst_ F) (rounds : list (bytes * nat)) : option (bres (fst_ F) P) :=
+    match rounds with
+    | [] => None
+    | (mem, n) :: rs => match bfeed (bwrap_generic F alloc) s mem n with
+                        | BNeed s' _ => first_bevent s' rs
+                        | r => Some r
+                        end
+    end.
+
+  Definition to_bres (r : fres (fst_ F) P) : bres (fst_ F) P :=
+    match r with Need s => BNeed s 0 | Done p rest => BDone p rest | Fail e rest => BFail e rest | Crash => BCrash end.
+
+  Theorem bwrap_first_event rounds : forall s,
+    first_bevent s rounds = option_map to_bres (first_event F s (map (fun r => firstn (snd r) (fst r)) rounds)).
+  Proof.
+    induction rounds as [|[mem n] rs IH]; intros s; [reflexivity|].
+    cbn [first_bevent map first_event fst snd bfeed bwrap_generic]. unfold bwrap_feed.
+    destruct (ffeed F s (firstn n mem)); cbn [option_map to_bres]; try reflexivity. apply IH.
+  Qed.
+
+  (* the state of the inner generator is the only thing kept besides the receive buffer *)
+  Lemma bwrap_need_state s mem n s' start : bfeed (bwrap_generic F alloc) s mem n = BNeed s' start ->
+    ffeed F s (firstn n mem) = Need s' /\ start = 0.
+  Proof. cbn. unfold bwrap_feed. destruct (ffeed F s (firstn n mem)); intros H; inversion H; subst; auto. Qed.
+End BWrap.
+
+Lemma fb_alloc_le limit sizehint : fb_alloc limit sizehint <= limit.
+Proof. unfold fb_alloc. lia. Qed.
+
+(* tightness / cut dependence of the file-based limit: a 3-byte record is accepted alone but rejected when the same
+   read also carries 4 more bytes (limit 6): what is checked is the accumulated buffer, not the record *)
+Definition c07_toy_load (content : bytes) : lres bytes :=
+  match content with
+  | [] => LEof 0
+  | n :: rest => if Nat.ltb (length rest) (N.to_nat n) then LEof (length content)
+                 else LDone (firstn (N.to_nat n) rest) (S (N.to_nat n))
+  end.
+Example fb_limit_depends_on_the_read :
+  ffeed (fb_framer 6 c07_toy_load (fun _ => true)) None [2; 7; 7]%N = Done [7; 7]%N [] /\
+  ffeed (fb_framer 6 c07_toy_load (fun _ => true)) None [2; 7; 7; 1; 9; 1; 9]%N = Fail ELimit [].
+Proof. vm_compute. split; reflexivity. Qed.
+
+(* raw JSON: acceptance of a document does not depend on what follows it in the read, only on its own end index *)
+Example json_limit_is_on_the_document :
+  ffeed (jraw_framer 3) JInit [91; 93; 91; 49; 44; 50; 44; 51; 93]%N = Done [91; 93]%N [91; 49; 44; 50; 44; 51; 93]%N.
+Proof. vm_compute. reflexivity. Qed.
